@@ -669,9 +669,15 @@ def exec_op(w, op):
         given = w.arrays.setdefault("TCG%d" % op["m"], np.array([[2.0], [3.5]]))
         out["args"] = [first, given]
         out["entry"] = "TransformedModel.conditional_" + which
-        out["det"] = False  # Monte-Carlo; what must hold is that the caller's arrays and the model are untouched
         f = getattr(m, "conditional_" + which)
-        out["call"] = lambda: f(first, 1, given)
+        if op.get("seeded"):
+            # the way the contours call it: with the model's own random_state (an integer here) - then the Monte-Carlo
+            # evaluation is deterministic and has to be repeatable on the same model object
+            out["entry"] += "[random_state=model.random_state]"
+            out["call"] = lambda: f(first, 1, given, random_state=m.random_state)
+        else:
+            out["det"] = False  # Monte-Carlo; what must hold is that the caller's arrays and the model are untouched
+            out["call"] = lambda: f(first, 1, given)
     elif name == "marginal":
         unc = [i for i in range(lm.n_dim) if lm.ghm.conditional_on[i] is None]
         dim = unc[op["dim"] % len(unc)]
@@ -998,7 +1004,7 @@ def run_sequence(case):
                     r2 = again.coordinates if ex.get("post") == "contour" else again
                     if not same_result(r1, r2):
                         det_bad = "second evaluation differs from the first"
-                    elif "m" in op and op["op"] in ("pdf", "icdf", "cond", "marginal", "sample") and time.time() - t_op < 1.0:
+                    elif "m" in op and op["op"] in ("pdf", "icdf", "cond", "marginal", "sample", "tcond") and time.time() - t_op < 4.0:
                         memo.append({"step": step, "m": op["m"], "entry": ex["entry"], "call": ex["call"], "first": r1, "valid": True})
                 except Exception as e:  # noqa: BLE001
                     det_bad = "second evaluation raised %s although the first succeeded" % type(e).__name__
@@ -1124,7 +1130,7 @@ def random_ops(rng, specs, length, allow_cdf):
             c = rng.integers(0, 5)
             if c == 4:
                 # Monte-Carlo conditional cdf / icdf of the transformed model on caller-owned float64 arrays
-                ops.append({"op": "tcond", "m": m, "which": str(rng.choice(["icdf", "cdf"]))})
+                ops.append({"op": "tcond", "m": m, "which": str(rng.choice(["icdf", "cdf"])), "seeded": bool(rng.integers(0, 2))})
             elif c == 0:
                 ops.append({"op": "pdf", "m": m, "variant": str(rng.choice(["float", "view", "fortran", "stride"])), "rows": 20})
             elif c == 1:
